@@ -104,11 +104,23 @@ def conv_mark(s):
     return '# begin ' + (s.name if s.name is not None else '<verbatim>') + '\n' + s.code + '\n# end'
 
 
+def make_guard(symbols):
+    """A converter that wraps ALL equations in one compound statement: the first code-carrying symbol opens the suite,
+    every other block continues it — so every line of those blocks starts with whitespace."""
+    first = next((x for x in symbols if x.type in (P.Type.ENDOGENOUS, P.Type.VERBATIM) and x.equation is not None
+                  and x.code is not None), None)
+
+    def conv_guard(s):
+        body = s.code.replace('\n', '\n    ')
+        return ('if t >= 0:\n    ' + body) if s == first else ('    ' + body)
+    return conv_guard
+
+
 def conv_empty(s):
     return ''
 
 
-CONVERTERS = {'default': None, 'code': conv_code, 'wrap': conv_wrap, 'mark': conv_mark, 'empty': conv_empty}
+CONVERTERS = {'default': None, 'code': conv_code, 'wrap': conv_wrap, 'guard': 'guard', 'mark': conv_mark, 'empty': conv_empty}
 
 
 # ---- program mutators (AST level) -------------------------------------------------------------------------------
